@@ -2323,6 +2323,7 @@ def make_ext_modules(I):
     pi = z3.Real("pi")
     I.axiom("pi", z3.And(pi > z3.RealVal("3.14159265358979"), pi < z3.RealVal("3.14159265358980")))
     mth["pi"] = pi
+    mth["e"] = Fraction(math.e)  # A1: the float constant math.e as the exact rational it is
     mth["tau"] = 2 * pi
     mth["inf"] = Opaque("inf")
 
